@@ -102,6 +102,15 @@ func (c *Ctx) nativeStackAtom(k int) ttAtom {
 // for this very value.
 func (c *Ctx) rulePushLoops() {
 	rep := c.rep
+	// the worker appends nothing itself: every value goes through one of the two per-value loops
+	// (a bulk append of a slice of the batch would bypass the no-nesting test and the policy)
+	if fn := c.p.ByName["(*stack).push"]; fn != nil {
+		if n := c.hdrStoresIn(fn); n == 0 {
+			rep.ok("R-APPEND", "(*stack).push", "appends only through the loops", c.p.pos(fn.Pos()), "push stores no header itself")
+		} else {
+			rep.bad("R-APPEND", "(*stack).push", "appends only through the loops", c.p.pos(fn.Pos()), fmt.Sprintf("push stores the header %d time(s) itself: values appended there bypass the per-value tests (no-nesting, capacity, policy)", n))
+		}
+	}
 	type spec struct {
 		fn      string
 		gate    string // callee whose verdict gates the append ("" = dynamic policy call)
